@@ -180,7 +180,18 @@ func (engC14) Gen(r *Rng, s *Script, idx int, tier string) {
 	}
 	level := 1 + r.Intn(2)
 	for i := 0; i < nb; i++ {
-		switch r.Pick([]int{10, 3, 1, 1, 2}) {
+		switch r.Pick([]int{10, 3, 1, 1, 2, 1}) {
+		case 5:
+			switch r.Intn(4) {
+			case 0:
+				s.Steps = append(s.Steps, Step{Op: "copyCell", A: r.Intn(4), B: r.Intn(3)})
+			case 1:
+				s.Steps = append(s.Steps, Step{Op: "copyCell", A: r.Intn(4), B: r.Intn(3)}, Step{Op: "addCopy", A: 0, B: r.Intn(3)})
+			case 2:
+				s.Steps = append(s.Steps, Step{Op: "attachOther", A: r.Intn(3)})
+			default:
+				s.Steps = append(s.Steps, Step{Op: "nestCell", A: r.Intn(4), B: r.Intn(3)})
+			}
 		case 0:
 			s.Steps = append(s.Steps, genBuildStep(r, m, level, &ctr))
 		case 1:
@@ -224,7 +235,7 @@ func (engC14) Gen(r *Rng, s *Script, idx int, tier string) {
 	for i := 0; i < nr; i++ {
 		if growth && i > 0 && r.Chance(1, 4) {
 			// the table changes between renders (wrappers kept by the caller stay in use)
-			switch r.Intn(4) {
+			switch r.Intn(5) {
 			case 0:
 				s.Steps = append(s.Steps, Step{Op: "rowItems", Items: genItems(r, r.Range(0, 4), level, &ctr)})
 			case 1:
@@ -232,7 +243,11 @@ func (engC14) Gen(r *Rng, s *Script, idx int, tier string) {
 			case 2:
 				s.Steps = append(s.Steps, Step{Op: "appendNewRow"}, Step{Op: "rowAdd", A: 0, Items: genItems(r, 1, level, &ctr)})
 			default:
-				s.Steps = append(s.Steps, Step{Op: "headers", Items: genItems(r, r.Range(1, 5), 1, &ctr)})
+				if r.Chance(1, 2) {
+					s.Steps = append(s.Steps, Step{Op: "copyCell", A: r.Intn(4), B: r.Intn(3)}, Step{Op: "addCopy", A: 0, B: r.Intn(3)})
+				} else {
+					s.Steps = append(s.Steps, Step{Op: "headers", Items: genItems(r, r.Range(1, 5), 1, &ctr)})
+				}
 			}
 		}
 		if overwrite && i > 0 && r.Chance(1, 3) {
